@@ -186,7 +186,7 @@ def rebuild_ops(im, k, n, rng, edit):
                 j = rng.choice(cands)
                 v = op[4][j][1]
                 if v[0] == "qn":
-                    op[4][j][1] = ["id", v[2] + v[3]]
+                    op[4][j][1] = [rng.choice(["id", "str"]), v[2] + v[3]]
                 elif v[0] == "id":
                     op[4][j][1] = ["str", v[1]]
                 elif v[0] == "int":
@@ -297,6 +297,29 @@ def fixed_programs():
             for b in range(6):
                 if a != b:
                     p.append(["Eq", ["d", str(a)], ["d", str(b)]])
+        out.append(p)
+    # one attribute of one entity holding, in turn, values that denote or print alike but are different values: the
+    # qualified name ex:a, the same name under another prefix (the SAME value), the URI it denotes as an xsd:anyURI, as a
+    # plain string, the string "ex:a", a language-tagged "ex:a"; 1, "1", True, "True", 1.0 — every pair, both orders, as
+    # documents, and the same with the attribute inside a bundle
+    vals = [["qn", "ex", EXU, "a"], ["qn", "ex2", EXU, "a"], ["id", EXU + "a"], ["str", EXU + "a"], ["str", "ex:a"],
+            ["lit", "ex:a", "none", ["some", "en"]], ["int", "1"], ["str", "1"], ["bool", "true"], ["str", "True"],
+            ["lit", EXU + "a", ["qn", "ex", EXU, "T"], "none"]]
+    for in_bundle in (False, True):
+        p = []
+        for i, v in enumerate(vals):
+            p += [["NewDoc"], ["AddNs", ["d", str(i)], "ex", EXU], ["AddNs", ["d", str(i)], "ex2", EXU]]
+            c = ["d", str(i)]
+            if in_bundle:
+                p.append(["NewBundle", str(i), ["S", "ex:b"]])
+                c = ["b", str(i), "0"]
+            p.append(["NewRecord", c, "Entity", ["S", "ex:e"], [[["S", "ex:k"], v], [["S", "prov:type"], v]]])
+        for a in range(len(vals)):
+            for b in range(len(vals)):
+                if a != b:
+                    p.append(["Eq", ["d", str(a)], ["d", str(b)]])
+        for a in range(len(vals)):
+            p.append(["EqRec", ["r", ["b", str(a), "0"] if in_bundle else ["d", str(a)], "0"], ["r", ["b", str((a + 3) % len(vals)), "0"] if in_bundle else ["d", str((a + 3) % len(vals))], "0"]])
         out.append(p)
     return out
 
